@@ -8,8 +8,12 @@ from . import tlc
 from .common import Outcome, run_driver
 from .tlc import MachineryError
 
-PARAMS = {"2Y0A02": ("62.28", "-1.092", 22500000, 145000000), "2Y0A21": ("26.449", "-1.226", 10000000, 80000000),
-          "2Y0A41": ("12.84", "-0.9824", 4500000, 35000000)}
+BASE = {"2Y0A02": ("62.28", "-1.092", 22500000, 145000000), "2Y0A21": ("26.449", "-1.226", 10000000, 80000000),
+        "2Y0A41": ("12.84", "-0.9824", 4500000, 35000000)}
+# each model on an on-board and on an MXP analog channel; the 2Y0A41 also under its legacy public name
+PARAMS = dict(BASE)
+PARAMS.update({k + "@hi": v for k, v in BASE.items()})
+PARAMS["2Y0A41@legacy"] = BASE["2Y0A41"]
 INV = ["LawDecreasing", "C17_InRange", "C17_Monotone", "C17_FollowsLaw", "C17_Special", "C17_SimInverse"]
 CFG = "SPECIFICATION Spec\n" + "".join("INVARIANT %s\n" % i for i in INV) + "CHECK_DEADLOCK FALSE\n"
 
@@ -58,7 +62,7 @@ def check(prop, tier):
         out.violation("invariant %s fails for case %s" % (r.violated, m.group(1) if m else st),
                       {"kind": "model_on_observed_table", "module": "SharpIR", "property": prop, "invariant": r.violated,
                        "case": m.group(1) if m else st, "key": {"module": "SharpIR", "clause": r.violated}})
-    n = 3 * 4096 + sum(len(v) for v in data["special"].values()) + sum(len(v) for v in data["sim"].values())
+    n = len(PARAMS) * 4096 + sum(len(v) for v in data["special"].values()) + sum(len(v) for v in data["sim"].values())
     inside = sum(1 for m in PARAMS for k in range(4096) if PARAMS[m][2] < data["law"][m][k] < PARAMS[m][3])
     out.cov["traces_validated_against_impl"] = n
     out.cov["evaluations"] = n
@@ -72,7 +76,7 @@ def check(prop, tier):
                               "table computed by an independent 50-digit decimal evaluation (trusted), against which TLC compares every "
                               "reading to +-1 micro-centimetre")
     out.cov["samples"] = [{"model": m, "code": k, "volts": 5.0 * k / 4096, "law_ucm": data["law"][m][k], "read_ucm": data["obs"][m][k]}
-                          for m, k in (("2Y0A02", 1000), ("2Y0A21", 300), ("2Y0A41", 4095))]
+                          for m, k in (("2Y0A02", 1000), ("2Y0A21@hi", 300), ("2Y0A41@legacy", 4095))]
     out.assumptions += ["the power law A*v^B is evaluated outside TLC with Python's decimal module at 50 digits (trusted base)",
                         "AnalogInputSim.setVoltage/getVoltage round-trip doubles exactly",
                         "NaN is outside the property's quantifier (finite or infinite doubles)"]
